@@ -97,6 +97,36 @@ theorem decodeBlocks_rest (sizeOf : Nat → Option Nat) (start n k t : Nat) (r :
         congr 1
         rw [Nat.succ_mul]; omega
 
+/-- the only error of a run / of the blocks is the IndexError of the description table -/
+theorem decodeRun_err (sizeOf : Nat → Option Nat) (n idx : Nat) (r : List UInt8) (e : P2.Err)
+    (h : P2.decodeRun sizeOf n idx r = .error e) : e = .index := by
+  induction n generalizing idx r e with
+  | zero => simp [P2.decodeRun] at h
+  | succ n ih =>
+    unfold P2.decodeRun at h
+    cases hs : sizeOf idx with
+    | none => simp [hs] at h; exact h.symm
+    | some sz =>
+      simp only [hs] at h
+      cases hr : P2.decodeRun sizeOf n (idx + 1) (r.drop (3 * sz)) with
+      | error e' => simp [hr] at h; rw [← h]; exact ih _ _ _ hr
+      | ok v => obtain ⟨ps1, r1⟩ := v; simp [hr] at h
+
+theorem decodeBlocks_err (sizeOf : Nat → Option Nat) (start n k t : Nat) (r : List UInt8) (e : P2.Err)
+    (h : P2.decodeBlocks sizeOf start n k t r = .error e) : e = .index := by
+  induction k generalizing t r e with
+  | zero => simp [P2.decodeBlocks] at h
+  | succ k ih =>
+    unfold P2.decodeBlocks at h
+    cases hr : P2.decodeRun sizeOf n start r with
+    | error e' => simp [hr] at h; rw [← h]; exact decodeRun_err _ _ _ _ _ hr
+    | ok v =>
+      obtain ⟨ps1, r1⟩ := v
+      simp only [hr] at h
+      cases hb : P2.decodeBlocks sizeOf start n k (t + 1) r1 with
+      | error e' => simp [hb] at h; rw [← h]; exact ih _ _ _ hb
+      | ok w => obtain ⟨bs2, r2⟩ := w; simp [hb] at h
+
 /-! ### the instance: attribute `_offset` -/
 
 /-- the instance `obj c ks vs` after `self._offset = n` -/
@@ -346,5 +376,259 @@ theorem ecomax_decode_eq (c : String) (ks : List String) (vs : List V) (msg : Li
     | ok v =>
       obtain ⟨ps, r'⟩ := v
       simp [ensure_dict_eq _ hd]
+
+/-! ### mixer parameters -/
+
+theorem mixer_parameter_eq (c : String) (ks : List String) (vs : List V) (msg : List UInt8) (off start n : Nat) :
+    PyCode.MixerParametersStructure_mixer_parameter (withOff c ks vs off) (.bytes msg) (.int (start : Int)) (.int (n : Int))
+      = match P2.decodeRun P2.one n start (msg.drop off) with
+        | .error _ => .error .IndexError
+        | .ok (ps, _) => .ok (.list (paramsV ps), withOff c ks vs (off + 3 * n)) := by
+  unfold PyCode.MixerParametersStructure_mixer_parameter
+  simp only [add_nat, ok_bind, range_nat, Nat.add_sub_cancel_left, forLoop_list]
+  rw [run_fold P2.one msg c ks vs]
+  · cases P2.decodeRun P2.one n start (msg.drop off) with
+    | error e => rfl
+    | ok v => obtain ⟨ps, r⟩ := v; simp [runLen_one]
+  · intro idx off acc
+    simp only [P2.one, getattr_withOff, ok_bind, unpack_eq1, truthy_slotV, pure_eq_ok, PyCode.c_MIXER_PARAMETER_SIZE,
+      add_nat, add_int, cast_add_2, cast_add_3, cast_add_4, cast_add_one, setattr_withOff, Nat.mul_one]
+    cases P2.unpackParam 1 (msg.drop off) <;> simp [yieldSlot, slotV]
+
+theorem range_zero (b : Nat) : Py.range (.int 0) (.int (b : Int)) = .ok (.list (rangeV 0 b)) := by
+  have := range_nat 0 b
+  simpa using this
+
+theorem paramsV_isEmpty (ps : P2.Params) : (paramsV ps).isEmpty = ps.isEmpty := by
+  cases ps <;> rfl
+
+theorem mixer_parameters_eq (c : String) (ks : List String) (vs : List V) (msg : List UInt8) (off mixers start n : Nat) :
+    PyCode.MixerParametersStructure_mixer_parameters (withOff c ks vs off) (.bytes msg) (.int (mixers : Int))
+        (.int (start : Int)) (.int (n : Int))
+      = match P2.decodeBlocks P2.one start n mixers 0 (msg.drop off) with
+        | .error _ => .error .IndexError
+        | .ok (bs, _) => .ok (.list (blocksV bs), withOff c ks vs (off + mixers * (3 * n))) := by
+  unfold PyCode.MixerParametersStructure_mixer_parameters
+  simp only [ok_bind, range_zero, forLoop_list]
+  rw [blocks_fold P2.one msg c ks vs start n]
+  · cases P2.decodeBlocks P2.one start n mixers 0 (msg.drop off) with
+    | error e => rfl
+    | ok v => obtain ⟨bs, r⟩ := v; simp [runLen_one]
+  · intro t off acc
+    simp only [mixer_parameter_eq, runLen_one]
+    cases P2.decodeRun P2.one n start (msg.drop off) with
+    | error e => rfl
+    | ok v =>
+      obtain ⟨ps, r⟩ := v
+      by_cases hp : ps.isEmpty <;> simp [yieldBlock, hp, paramsV_isEmpty]
+
+/-- `MixerParametersStructure.decode(message, offset, data)`; `dict(…)` of the model's blocks is left as the
+prelude's `dict_` of the list of pairs (see `dict_blocks` for its value) -/
+theorem mixer_decode_eq (c : String) (ks : List String) (vs : List V) (msg : List UInt8) (off : Nat) (data : V)
+    (hd : dataOk data) :
+    PyCode.MixerParametersStructure_decode (.obj c ks vs) (.bytes msg) (.int (off : Int)) data
+      = match P2.decodeMixer (msg.drop off) with
+        | .error _ => .error .IndexError
+        | .ok (bs, _) =>
+          let o := off + 4 + (msg.getD (off + 3) 0).toNat * (3 * (msg.getD (off + 2) 0).toNat)
+          (Py.dict_ (.list (blocksV bs))).map fun d =>
+            (.tuple [merge1 data ["mixer_parameters"] [d], .int (o : Int)], withOff c ks vs o) := by
+  unfold PyCode.MixerParametersStructure_decode
+  simp only [add_int, ok_bind, cast_add_one, cast_add_2, cast_add_3, cast_add_4, index_bytes_nat, getElem?_off, getD_off,
+    setattr_obj]
+  generalize hm : msg.drop off = d
+  match d with
+  | [] => simp [P2.decodeMixer]
+  | [_] => simp [P2.decodeMixer]
+  | [_, _] => simp [P2.decodeMixer]
+  | [_, _, _] => simp [P2.decodeMixer]
+  | b0 :: s :: cnt :: k :: r =>
+    simp only [List.getElem?_cons_succ, List.getElem?_cons_zero, ok_bind, byteV_nat, setattr_obj,
+      mixer_parameters_eq, drop4, hm, List.drop_succ_cons, List.drop_zero, P2.decodeMixer]
+    cases P2.decodeBlocks P2.one s.toNat cnt.toNat k.toNat 0 r with
+    | error e => rfl
+    | ok v =>
+      obtain ⟨bs, r'⟩ := v
+      simp only [ok_bind, Option.getD_some]
+      cases Py.dict_ (.list (blocksV bs)) with
+      | error e => rfl
+      | ok dd => simp [ensure_dict_eq _ hd, Except.map]
+
+/-! ### thermostat parameters -/
+
+/-- the description objects folded from the source text of `THERMOSTAT_PARAMETERS` -/
+def descs : List V := match PyCode.c_THERMOSTAT_PARAMETERS with | .tuple xs => xs | _ => []
+
+theorem descs_eq : PyCode.c_THERMOSTAT_PARAMETERS = .tuple descs := rfl
+
+/-- the `size` fields of the table as the code translator folds it from the SOURCE TEXT are the sizes of the
+table the reflection dump (`tools/gen_tables.py`) reads from the interpreter -/
+theorem thermo_sizes_tbl :
+    descs.map (fun d => Py.getattr d "size") = Gen.thermostat.map (fun r => (.ok (.int (r.size : Nat)) : PyM V)) := by
+  rfl
+
+theorem desc_at (idx : Nat) :
+    match descs[idx]?, P2.thermoSize idx with
+    | some d, some sz => Py.getattr d "size" = .ok (.int (sz : Int))
+    | none, none => True
+    | _, _ => False := by
+  have h := congrArg (fun l => l[idx]?) thermo_sizes_tbl
+  simp only [List.getElem?_map] at h
+  unfold P2.thermoSize
+  cases hd : descs[idx]? <;> cases hg : Gen.thermostat[idx]? <;> simp_all
+
+theorem index_tuple_nat (xs : List V) (n : Nat) :
+    Py.index (.tuple xs) (.int (n : Int)) = match xs[n]? with
+      | some x => .ok x
+      | none => .error .IndexError := by
+  by_cases h : n < xs.length
+  · have h1 : (n : Int) < (xs.length : Int) := by omega
+    simp [Py.index, normIndex, asInt?, h, h1, List.getD_eq_getElem?_getD]
+  · have h1 : ¬ (n : Int) < (xs.length : Int) := by omega
+    have h2 : xs[n]? = none := List.getElem?_eq_none (by omega)
+    simp [Py.index, normIndex, asInt?, h1, h2]
+
+theorem floordiv_nat (a T : Nat) (h : T ≠ 0) :
+    Py.floordiv (.int (a : Int)) (.int (T : Int)) = .ok (.int ((a / T : Nat) : Int)) := by
+  simp [Py.floordiv, asInt?, h, Int.fdiv_eq_ediv_of_nonneg]
+
+theorem cast_3_mul (a : Nat) : (3 : Int) * (a : Int) = ((3 * a : Nat) : Int) := by simp
+
+theorem thermo_parameter_eq (c : String) (ks : List String) (vs : List V) (msg : List UInt8) (off T start n : Nat)
+    (hT : T ≠ 0) :
+    PyCode.ThermostatParametersStructure_thermostat_parameter (withOff c ks vs off) (.bytes msg) (.int (T : Int))
+        (.int (start : Int)) (.int (n : Int))
+      = match P2.decodeRun P2.thermoSize (P2.thermoPer start n T) start (msg.drop off) with
+        | .error _ => .error .IndexError
+        | .ok (ps, _) =>
+          .ok (.list (paramsV ps), withOff c ks vs (off + runLen P2.thermoSize (P2.thermoPer start n T) start)) := by
+  unfold PyCode.ThermostatParametersStructure_thermostat_parameter
+  simp only [add_nat, ok_bind, floordiv_nat _ _ hT, range_nat, forLoop_list]
+  rw [run_fold P2.thermoSize msg c ks vs]
+  · unfold P2.thermoPer
+    cases P2.decodeRun P2.thermoSize ((start + n) / T - start) start (msg.drop off) with
+    | error e => rfl
+    | ok v => obtain ⟨ps, r⟩ := v; simp
+  · intro idx off acc
+    have hd := desc_at idx
+    simp only [descs_eq, index_tuple_nat]
+    cases hx : descs[idx]? with
+    | none =>
+      cases hs : P2.thermoSize idx with
+      | none => rfl
+      | some sz => simp [hx, hs] at hd
+    | some d =>
+      cases hs : P2.thermoSize idx with
+      | none => simp [hx, hs] at hd
+      | some sz =>
+        simp only [hx, hs] at hd
+        simp only [ok_bind, getattr_withOff, hd, unpack_eq, truthy_slotV, pure_eq_ok, PyCode.c_THERMOSTAT_PARAMETER_SIZE,
+          mul_int, cast_3_mul, add_nat, setattr_withOff]
+        cases P2.unpackParam sz (msg.drop off) <;> simp [yieldSlot, slotV]
+
+theorem thermo_parameters_eq (c : String) (ks : List String) (vs : List V) (msg : List UInt8) (off T start n : Nat)
+    (hT : T ≠ 0) :
+    PyCode.ThermostatParametersStructure_thermostat_parameters (withOff c ks vs off) (.bytes msg) (.int (T : Int))
+        (.int (start : Int)) (.int (n : Int))
+      = match P2.decodeBlocks P2.thermoSize start (P2.thermoPer start n T) T 0 (msg.drop off) with
+        | .error _ => .error .IndexError
+        | .ok (bs, _) =>
+          .ok (.list (blocksV bs), withOff c ks vs (off + T * runLen P2.thermoSize (P2.thermoPer start n T) start)) := by
+  unfold PyCode.ThermostatParametersStructure_thermostat_parameters
+  simp only [ok_bind, range_zero, forLoop_list]
+  rw [blocks_fold P2.thermoSize msg c ks vs start (P2.thermoPer start n T)]
+  · cases P2.decodeBlocks P2.thermoSize start (P2.thermoPer start n T) T 0 (msg.drop off) with
+    | error e => rfl
+    | ok v => obtain ⟨bs, r⟩ := v; simp
+  · intro t off acc
+    simp only [thermo_parameter_eq _ _ _ _ _ _ _ _ hT]
+    cases P2.decodeRun P2.thermoSize (P2.thermoPer start n T) start (msg.drop off) with
+    | error e => rfl
+    | ok v =>
+      obtain ⟨ps, r⟩ := v
+      by_cases hp : ps.isEmpty <;> simp [yieldBlock, hp, paramsV_isEmpty]
+
+/-- the exception class of a model error -/
+def errV : P2.Err → PyErr
+  | .index => .IndexError
+  | .unbound => .UnboundLocalError
+  | .struct => .StructError
+  | .value => .ValueError
+
+/-- what `self.frame.handler` is for the model's `thermostats` argument: no owning device, or a device whose
+data hold `thermostats_available = T` (absent: the default 0) -/
+def handlerIs (h : V) : Option Nat → Prop
+  | none => h = .none
+  | some T => ∃ dk dv, h = .dict dk dv ∧ (lookup dk dv "thermostats_available").getD (.int 0) = .int (T : Int)
+
+/-- `ThermostatParametersStructure.decode(message, offset, data)` on any instance whose `frame.handler` is
+`None` or a device: the model's `decodeThermo` on `message[offset:]`, error classes included
+(`UnboundLocalError` without an owning device, `IndexError` where the description table ends) -/
+theorem thermo_decode_eq (c : String) (ks : List String) (vs : List V) (fc : String) (fks : List String) (fvs : List V)
+    (h : V) (thermostats : Option Nat) (msg : List UInt8) (off : Nat) (data : V) (hd : dataOk data)
+    (hf : lookup ks vs "frame" = some (.obj fc fks fvs)) (hh : lookup fks fvs "handler" = some h)
+    (hH : handlerIs h thermostats) :
+    PyCode.ThermostatParametersStructure_decode (.obj c ks vs) (.bytes msg) (.int (off : Int)) data
+      = match P2.decodeThermo thermostats (msg.drop off) with
+        | .error e => .error (errV e)
+        | .ok (.unavailable, _) =>
+          .ok (.tuple [merge1 data ["thermostat_parameters"] [.none], .int (off : Int)], .obj c ks vs)
+        | .ok (.val profile bs, _) =>
+          let s := (msg.getD (off + 1) 0).toNat
+          let n := (msg.getD (off + 2) 0).toNat
+          let o := off + 6 + thermostats.getD 0 * runLen P2.thermoSize (P2.thermoPer s n (thermostats.getD 0)) s
+          (Py.dict_ (.list (blocksV bs))).map fun d =>
+            (.tuple [merge1 data ["thermostat_profile", "thermostat_parameters"] [slotV profile, d], .int (o : Int)],
+             withOff c ks vs o) := by
+  unfold PyCode.ThermostatParametersStructure_decode
+  have g1 : Py.getattr (.obj c ks vs) "frame" = .ok (.obj fc fks fvs) := by simp [Py.getattr, hf]
+  have g2 : Py.getattr (.obj fc fks fvs) "handler" = .ok h := by simp [Py.getattr, hh]
+  simp only [g1, g2, ok_bind]
+  cases thermostats with
+  | none =>
+    simp only [handlerIs] at hH
+    subst hH
+    simp only [Py.isNotNone, Py.truthy, pure_eq_ok, ok_bind, Bool.false_eq_true, if_false,
+      add_int, cast_add_one, cast_add_2, cast_add_3, index_bytes_nat, getElem?_off, unpack_eq1, setattr_obj,
+      PyCode.c_THERMOSTAT_PARAMETER_SIZE, Py.unboundLocal]
+    generalize hm : msg.drop off = d
+    match d with
+    | [] => simp [P2.decodeThermo, errV]
+    | [_] => simp [P2.decodeThermo, errV]
+    | [_, _] => simp [P2.decodeThermo, errV]
+    | b0 :: s :: cnt :: r => simp [P2.decodeThermo, errV]
+  | some T =>
+    obtain ⟨dk, dv, rfl, hT⟩ := hH
+    have g3 : Py.device_get_nowait (.dict dk dv) PyCode.c_ATTR_THERMOSTATS_AVAILABLE (.int 0) = .ok (.int (T : Int)) := by
+      simp [Py.device_get_nowait, PyCode.c_ATTR_THERMOSTATS_AVAILABLE, hT]
+    simp only [Py.isNotNone, Py.truthy, pure_eq_ok, ok_bind, if_true, g3]
+    cases T with
+    | zero =>
+      simp [Py.eq, Py.eqB, asInt?, Py.truthy, P2.decodeThermo, ensure_dict_eq _ hd]
+    | succ T' =>
+      have hne : T' + 1 ≠ 0 := by omega
+      have e0 : Py.eq (.int ((T' + 1 : Nat) : Int)) (.int 0) = .ok (.bool false) := by
+        simp [Py.eq, Py.eqB, asInt?]; omega
+      simp only [e0, ok_bind, Py.truthy, pure_eq_ok, Bool.false_eq_true, if_false,
+        add_int, cast_add_one, cast_add_2, cast_add_3, index_bytes_nat, getElem?_off, getD_off, unpack_eq1, setattr_obj,
+        PyCode.c_THERMOSTAT_PARAMETER_SIZE]
+      generalize hm : msg.drop off = d
+      match d with
+      | [] => simp [P2.decodeThermo, errV]
+      | [_] => simp [P2.decodeThermo, errV]
+      | [_, _] => simp [P2.decodeThermo, errV]
+      | b0 :: s :: cnt :: r =>
+        simp only [List.getElem?_cons_succ, List.getElem?_cons_zero, ok_bind, byteV_nat,
+          thermo_parameters_eq _ _ _ _ _ _ _ _ hne, drop6, drop3, hm, List.drop_succ_cons, List.drop_zero, P2.decodeThermo,
+          Option.getD_some]
+        simp only [List.drop_zero]
+        cases hb : P2.decodeBlocks P2.thermoSize s.toNat (P2.thermoPer s.toNat cnt.toNat (T' + 1)) (T' + 1) 0 (List.drop 3 r) with
+        | error e => have := decodeBlocks_err _ _ _ _ _ _ _ hb; subst this; simp [errV]
+        | ok v =>
+          obtain ⟨bs, r'⟩ := v
+          simp only [ok_bind]
+          cases Py.dict_ (.list (blocksV bs)) with
+          | error e => rfl
+          | ok dd => simp [ensure_dict_eq _ hd, Except.map, Nat.add_assoc]
 
 end PlumVerif.TieStructParams
